@@ -191,6 +191,8 @@ def check_table(ctx, case):
 MALFORMED = ['cov_asym_tiny', 'cov_asym_9th_digit', 'cov_grad_neg', 'cov_grad_indef', 'cov_grad_asym', 'cov_neg', 'dup_names', 'nonstring_name', 'unsorted_idl', 'dup_idl', 'len_mismatch', 'too_few', 'multi_ens', 'len_names',
              'len_idl', 'decreasing_range', 'cov_pipe', 'cov_asym', 'cov_indef', 'descending_list', 'ok_control',
              'multi_ens_prefix', 'multi_ens_prefix_rev', 'multi_ens_word', 'multi_ens_nosuffix', 'multi_ens_dot', 'multi_ens_bare_first', 'merge_multi_ens', 'ok_control_rep10']
+# indefinite covariances are indefinite at every overall scale (no absolute tolerance may enter the test)
+MALFORMED += ['%s@%d' % (k, e) for k in ('cov_neg', 'cov_indef', 'cov_listneg', 'cov_grad_neg') for e in (-12, -7, -3, 9)] + ['ok_cov@-12', 'ok_cov@9']
 
 
 def check_malformed(ctx, case):
@@ -254,6 +256,13 @@ def check_malformed(ctx, case):
         cov = lambda: pe.cov_Obs([1.0, 2.0], [[1.0, 0.2], [0.3, 1.0]], 'cv', grad=[0.0, 1.0])  # noqa: E731
     elif k == 'cov_indef':
         cov = lambda: pe.cov_Obs([1.0, 2.0], [[1.0, 2.0], [2.0, 1.0]], 'cv')  # noqa: E731
+    elif '@' in k:
+        kk, sc = k.split('@')[0], 10.0 ** int(k.split('@')[1])
+        cov = {'cov_neg': lambda: pe.cov_Obs(1.0, -0.25 * sc, 'cv'),
+               'cov_indef': lambda: pe.cov_Obs([1.0, 2.0], [[8.0 * sc, 4.0 * sc], [4.0 * sc, -2.0 * sc]], 'cv'),
+               'cov_listneg': lambda: pe.cov_Obs([1.0, 2.0], [4.0 * sc, -1.0 * sc], 'cv'),
+               'cov_grad_neg': lambda: pe.cov_Obs(1.0, -0.25 * sc, 'cv', grad=[1.0]),
+               'ok_cov': lambda: pe.cov_Obs([1.0, 2.0], [[2.0 * sc, 0.5 * sc], [0.5 * sc, 1.0 * sc]], 'cv')}[kk]
     try:
         with warnings.catch_warnings():
             warnings.simplefilter('ignore')
@@ -265,7 +274,7 @@ def check_malformed(ctx, case):
     except Exception:
         accepted = False
         o = None
-    if k in ('ok_control', 'ok_control_rep10'):
+    if k in ('ok_control', 'ok_control_rep10') or k.startswith('ok_cov@'):
         if not accepted:
             probs.append(('violation', 'rejects-valid-request', ''))
         return probs
